@@ -19,6 +19,7 @@ package syncx_test
 import (
 	"errors"
 	"fmt"
+	"math"
 	"runtime"
 	"sort"
 	"strconv"
@@ -47,6 +48,7 @@ type c18Op struct {
 	A   int    `json:"a,omitempty"`   // extra argument (fail flag, timeout ms, ...)
 	M   int    `json:"m,omitempty"`   // instance of the primitive the call goes to (0 or 1)
 	E   int    `json:"e,omitempty"`   // kind of error VALUE a failing callback / closer returns (c18MakeErr)
+	R   int    `json:"r,omitempty"`   // 1: the callback calls back into the same object (next key up; keys are ordered, so no cycle)
 }
 
 // c18Inst: several instances of one primitive live in one process (and one
@@ -86,12 +88,133 @@ func c18InstanceClasses(v *c18V, c c18Case) {
 type c18Case struct {
 	N  int       `json:"n,omitempty"` // size parameter (limit, pool size)
 	P  int       `json:"p,omitempty"` // time parameter in ms (maxAge, refresh interval)
+	KA int       `json:"ka,omitempty"` // key alphabet family (c18KeyNames)
+	X  int       `json:"x,omitempty"`  // code of a scale-free duration replacing P (c18Dur)
+	D  bool      `json:"d,omitempty"`  // instance 1 has its own settings N2 / P2 / X2
+	N2 int       `json:"n2,omitempty"`
+	P2 int       `json:"p2,omitempty"`
+	X2 int       `json:"x2,omitempty"`
 	F  []c18Op   `json:"f,omitempty"` // plan for callbacks without a caller (n-th invocation): A=2 panics
 	Gs [][]c18Op `json:"gs"`
 }
 
-// c18Panic is the value every generated callback panic carries.
+// c18Dur: a duration parameter is ms milliseconds or, with a code, one of the
+// scale-free magnitudes a caller can legally configure (virtual time makes them
+// free): 1 ns .. 100 years, "never" idioms and values next to the int64
+// overflow boundaries.
+func c18Dur(ms, code int) time.Duration {
+	switch code {
+	case 1:
+		return time.Nanosecond
+	case 2:
+		return time.Second
+	case 3:
+		return time.Minute
+	case 4:
+		return time.Hour
+	case 5:
+		return 30 * 24 * time.Hour
+	case 6:
+		return 100 * 365 * 24 * time.Hour
+	case 7:
+		return time.Duration(math.MaxInt64)
+	case 8:
+		return time.Duration(math.MaxInt64) - time.Millisecond
+	case 9:
+		return time.Duration(1 << 62)
+	case 10:
+		return time.Millisecond - time.Nanosecond
+	case 11:
+		return time.Millisecond + time.Nanosecond
+	}
+	return time.Duration(ms) * c18ms
+}
+
+const c18DurCodes = 11
+
+// c18Settings of instance m: (size, duration parameter).
+func c18Settings(c c18Case, m int) (int, time.Duration) {
+	if m == 1 && c.D {
+		return c.N2, c18Dur(c.P2, c.X2)
+	}
+	return c.N, c18Dur(c.P, c.X)
+}
+
+// c18Panic is the value every generated callback panic carries; callbacks
+// also panic with an error value and with a plain string (c18PanicValue).
 type c18Panic struct{ what string }
+
+type c18PanicErr struct{ what string }
+
+func (e c18PanicErr) Error() string { return "c18 panic: " + e.what }
+
+func c18PanicValue(op c18Op, what string) interface{} {
+	switch (op.H + op.Key + op.G) % 3 {
+	case 1:
+		return c18PanicErr{what}
+	case 2:
+		return "c18 panic: " + what
+	}
+	return c18Panic{what}
+}
+
+func c18OwnPanic(r interface{}) bool {
+	switch x := r.(type) {
+	case c18Panic, c18PanicErr:
+		return true
+	case string:
+		return strings.HasPrefix(x, "c18 panic: ")
+	}
+	return false
+}
+
+// c18KeyNames: the three key strings of a case. Keys are opaque strings to the
+// keyed primitives: distinct strings are distinct keys, whatever they contain.
+// Long keys are built here, never stored in the case.
+var c18KeyCache sync.Map
+
+func c18KeyNames(family int) []string {
+	if v, ok := c18KeyCache.Load(family); ok {
+		return v.([]string)
+	}
+	names := c18BuildKeyNames(family)
+	c18KeyCache.Store(family, names)
+	return names
+}
+
+func c18BuildKeyNames(family int) []string {
+	long := func(n int, tail string) string { return strings.Repeat("x", n) + tail }
+	switch family {
+	case 1:
+		return []string{"", " ", "\x00"}
+	case 2:
+		return []string{"key", "KEY", "key "}
+	case 3:
+		return []string{"%d", "%s", "%!(EXTRA)"}
+	case 4:
+		return []string{"\xff\xfe", "\xff", "\u00e9"}
+	case 5:
+		return []string{"a/b", "a/../a/b", "a//b"}
+	case 6:
+		return []string{"k*", "k?", "k[0]"}
+	case 7:
+		return []string{long(65536, "a"), long(65536, "b"), long(65536, "")}
+	case 8:
+		return []string{"a" + long(1<<20, ""), "b" + long(1<<20, ""), long(1<<20, "") + "a"}
+	case 9:
+		return []string{"k\x000", "k\x001", "k"}
+	}
+	return []string{"k0", "k1", "k2"}
+}
+
+const c18KeyFamilies = 10
+
+func c18DrawKeyFamily(rt *rapid.T) int {
+	if rapid.IntRange(0, 2).Draw(rt, "plainKeys") != 0 {
+		return 0
+	}
+	return rapid.IntRange(1, c18KeyFamilies-1).Draw(rt, "keyFamily")
+}
 
 // c18Try runs f and reports whether it panicked; the panic is recovered here,
 // on the caller's goroutine, the way recover middleware does upstream of the
@@ -100,7 +223,7 @@ func c18Try(f func()) (panicked bool, foreign interface{}) {
 	defer func() {
 		if r := recover(); r != nil {
 			panicked = true
-			if _, ok := r.(c18Panic); !ok {
+			if !c18OwnPanic(r) {
 				foreign = r
 			}
 		}
@@ -241,7 +364,10 @@ func c18ErrTag(err error) int {
 }
 
 func c18Sleep(msec int) {
-	if msec > 0 {
+	// Never sleep once a bubble's clock is near the end of representable time:
+	// go1.26.8 crashes there ("fatal error: bad g->status in ready": a timer set
+	// to the saturated maximum runs at once, on the still running goroutine).
+	if msec > 0 && time.Now().Year() < 2200 {
 		time.Sleep(time.Duration(msec) * c18ms)
 	}
 }
@@ -357,9 +483,34 @@ func c18PlayRounds(t *testing.T, c c18Case, rounds bool, setup func(clk *c18Cloc
 
 // c18Verdict assembles a verdict; the first failure wins.
 type c18V struct {
-	fail    string
-	classes map[string]bool
-	nt      bool
+	fail      string
+	knownFail string // a failure characterised by a known-finding predicate
+	known     string // its predicate id
+	classes   map[string]bool
+	nt        bool
+}
+
+// failKnown records a failure that matches the narrow predicate of a known
+// finding. Any other failure of the same case takes precedence (failf), so a
+// known finding never masks a different defect.
+func (v *c18V) failKnown(id, format string, args ...interface{}) {
+	if v.knownFail == "" {
+		v.knownFail, v.known = fmt.Sprintf(format, args...), id
+	}
+	v.class("known:" + id)
+}
+
+// c18TimexBase is timex.Now() at the start of every bubble (2000-01-01) under
+// the /verif clock hook: initTime = 2000-01-01 minus (1y 1m 1d).
+var c18TimexBase = func() time.Duration {
+	t := time.Date(2000, 1, 1, 0, 0, 0, 0, time.UTC)
+	return t.Sub(t.AddDate(-1, -1, -1))
+}()
+
+// c18StampOverflows: stamp + d exceeds int64, where stamp is the timex stamp
+// taken at virtual instant at (since the start of the case).
+func c18StampOverflows(at, d time.Duration) bool {
+	return d > 0 && int64(d) > math.MaxInt64-int64(c18TimexBase+at)
 }
 
 func c18NewV() *c18V { return &c18V{classes: map[string]bool{}} }
@@ -374,6 +525,9 @@ func (v *c18V) class(c string) { v.classes[c] = true }
 
 func (v *c18V) done(res kit.BubbleResult) kit.Verdict {
 	out := kit.Verdict{NonTrivial: v.nt, Fail: v.fail}
+	if v.fail == "" && v.knownFail != "" && res.OK() {
+		out.Fail, out.Known = v.knownFail, v.known
+	}
 	if !res.OK() && out.Fail == "" {
 		out.Fail = "bubble: " + res.String()
 	}
@@ -399,6 +553,19 @@ func c18CaseClasses(v *c18V, c c18Case) {
 	}
 	v.class(fmt.Sprintf("goroutines=%d", len(c.Gs)))
 	c18InstanceClasses(v, c)
+	if c.KA != 0 {
+		v.class(fmt.Sprintf("key-alphabet-family=%d", c.KA))
+	}
+	for _, g := range c.Gs {
+		for _, o := range g {
+			if o.R == 1 && o.Key < 2 {
+				v.class("re-entrant-callback")
+			}
+			if o.A == 2 && (o.K == "do" || o.K == "doex") {
+				v.class([]string{"panic-value=struct", "panic-value=error", "panic-value=string"}[(o.H+o.Key+o.G)%3])
+			}
+		}
+	}
 	if zero && len(c.Gs) > 1 {
 		v.class("burst(all-zero-delays)")
 	}
